@@ -43,7 +43,7 @@ def _snapshot_views(proc):
 
 
 def run_with_crashes(make_proc, crash_points, resume_for_wait, transport=None, budget=4000, max_restores=64, persister=None, lag=0, resume_mode='plain',
-                     exit_crashes=(), other_loop_current=False, paused_crashes=()):
+                     exit_crashes=(), other_loop_current=False, paused_crashes=(), save_every=False):
     """make_proc(loop) -> process.  resume_for_wait(j) -> list of resume args for the j-th wait (0-based).
 
     transport(bundle) -> bundle: how the snapshot travels (default: pickle round trip).
@@ -118,6 +118,16 @@ def run_with_crashes(make_proc, crash_points, resume_for_wait, transport=None, b
                         # work done after the checkpoint, about to be lost
                         lagging[0][1] -= 1
                         if lagging[0][1] <= 0:
+                            crash[0] = True
+                        return
+                    if save_every and persister is not None:
+                        # the usual arrangement: the running instance writes a checkpoint at every boundary (through the one
+                        # persister, under the same key) and is lost at some later point
+                        at_checkpoint[0] = _snapshot_views(p)
+                        persister.save_checkpoint(p)
+                        snapshot[0] = p.pid
+                        log.append(['checkpoint', idx, to, len(p.trace), 'every'])
+                        if idx in crash_points:
                             crash[0] = True
                         return
                     if idx in crash_points:
